@@ -100,6 +100,7 @@ Theorem run_routine_good r n R0 itr D s0 res :
     ((itr = O \/ r_eff res = O) -> r_rp res = R1).
 Proof.
   intros H Hpre. unfold run_routine in H.
+  destruct (negb (precheck r n R0)); [discriminate|].
   set (pre := if is_latt r then match s0 with DPerm p :: s1 => Some (p, tab 0 n n (conj_perm (of_list O p) R0), s1) | _ => None end
               else Some (seq 0 n, R0, s0)) in H.
   destruct pre as [[[p R1'] s1]|] eqn:Epre; [|discriminate].
@@ -283,6 +284,7 @@ Lemma run_routine_out r n R0 itr D s0 res :
        r_out res = fun x y => r_rp res (index_of x (r_perm res)) (index_of y (r_perm res))).
 Proof.
   intros H. unfold run_routine in H.
+  destruct (negb (precheck r n R0)); [discriminate|].
   destruct (is_latt r) eqn:L.
   - destruct s0 as [|[z|q|l] s1]; try discriminate.
     destruct (init_state _ n _) as [st0 k]. destruct (Nat.ltb k 2); [discriminate|].
